@@ -19,6 +19,9 @@ RULE = ("programs: seeded grammar programs (with/async with 1..3 items, try/exce
 ASSUMPTIONS = [
     "ground truth is the managers' own enter/exit event log (independent of stackscope)",
     "decides the generated programs only, not every program the compiler can emit",
+    "managers are Python classes (incl. falsy ones and ones whose exit method is an alias) or have C-level "
+    "__enter__/__exit__; exit methods declare an explicit first parameter that stays bound to the manager and async "
+    "exits are `async def` (the exiting manager's obj is, by documented design, read off the callee frame)",
     "3.9/3.10 run with a 5-line ExceptionGroup stand-in (the backport is not in the wheelhouse)",
 ]
 MIN_NONTRIVIAL = {"quick": 5000, "thorough": 100000}
